@@ -33,7 +33,11 @@ RULE = ('every pair (left, right) of tables whose key vectors range over ALL tup
         'prefixes or superstrings of one another (key kid with fields k, id, i, ki, kidx), equal after str() '
         '(int-valued header fields selected by name), a right non-key field named like the left key, for key=, '
         'lkey/rkey, natural and compound keys, key column in every position, cells tagged by row and column, '
-        'thorough also with text/int prefixes; crossjoin: all 1-,2-,3-tuples '
+        'thorough also with text/int prefixes; key-argument FORMS (29 header schemes x up to 13 forms): field index '
+        'instead of name incl. index 0 with the key in the first column while further fields are shared, key / '
+        'lkey,rkey as one-element tuple or list, the empty-string field name, index on one side and name on the '
+        'other, int-named header fields next to indices, compound keys mixing indices and names with component '
+        'order differing from column order; crossjoin: all 1-,2-,3-tuples '
         'of ragged 2-column tables x prefix x missing.  states = (variant, arguments, operator, table pair) '
         'points; every state is one evaluation of the real operator compared with the reference (header, '
         'type-faithful multiset of rows, non-decreasing output keys).  A case is non-trivial when both sides '
